@@ -23,6 +23,16 @@
 //!             what the handler creates belongs to the effect's current run — F-C08-2, repaired)
 //!   v<b>      `RenderEffect::new(body b)` (handle retained; `dispose e <k>` drops it)
 //!   a<b>      `AsyncDerived::new(move || { body b; async move { sum } })` (future ready at once)
+//!   V<b>      `RenderEffect::new_isomorphic(body b)` (as `v`)
+//!   j<b>      `ImmediateEffect::new(body b)` (handle retained; `dispose e <k>` drops it)
+//!   Q<b>      `ImmediateEffect::new_isomorphic(body b)`   q<b>  `ImmediateEffect::new_mut(body b)`
+//!   J<b>      `ImmediateEffect::new_scoped(body b)` (no handle: it lives until the current owner's next clean-up)
+//!   z<s>.<v>  `if sigs[s].get_untracked() < v { sigs[s].set(v) }` — inside an immediate effect that reads
+//!             s this makes the effect recurse; ignored inside a memo run and while a `new_mut` function runs
+//!   k<b>      `spawn_local_scoped(async { body b; yield; body b })`   K<b>  `spawn_local_scoped_with_cancellation(..)`
+//!   f<b>      `Executor::spawn_local(ScopedFuture::new(..))`
+//!             (a task is entered in the effect table: R<e>/S<e>=sum per segment, e<k>=l until its future
+//!             is dropped; ignored inside a memo run and inside a `new_scoped` effect)
 //!
 //! Op lines:
 //!   case <name>
@@ -53,8 +63,8 @@
 //!   watch-handler-unowned / owner-lost (something is created for a scope while no owner is current).
 use hx_common::*;
 use reactive_graph::{
-    computed::{ArcMemo, AsyncDerived, Memo},
-    effect::{Effect, RenderEffect},
+    computed::{ArcMemo, AsyncDerived, Memo, ScopedFuture},
+    effect::{Effect, ImmediateEffect, RenderEffect},
     graph::ToAnySubscriber,
     owner::{
         on_cleanup, provide_context, take_context, use_context, LocalStorage,
@@ -94,6 +104,12 @@ enum BOp {
     WatchSync(usize, usize, bool),
     Render(usize),
     Async(usize),
+    RenderIso(usize),
+    /// 0 `new`, 1 `new_scoped`, 2 `new_mut`, 3 `new_isomorphic`
+    Imm(usize, u8),
+    Write(usize, i64),
+    /// 0 `spawn_local_scoped`, 1 `.._with_cancellation`, 2 `ScopedFuture::new` + `Executor::spawn_local`
+    Spawn(usize, u8),
 }
 
 fn parse_tok(t: &str, max_body: usize) -> Option<BOp> {
@@ -125,6 +141,28 @@ fn parse_tok(t: &str, max_body: usize) -> Option<BOp> {
         "I" => BOp::EffectIso(num(rest).filter(|b| (*b as usize) < max_body)? as usize),
         "v" => BOp::Render(num(rest).filter(|b| (*b as usize) < max_body)? as usize),
         "a" => BOp::Async(num(rest).filter(|b| (*b as usize) < max_body)? as usize),
+        "V" => BOp::RenderIso(num(rest).filter(|b| (*b as usize) < max_body)? as usize),
+        "j" | "J" | "q" | "Q" => BOp::Imm(
+            num(rest).filter(|b| (*b as usize) < max_body)? as usize,
+            match k {
+                "j" => 0,
+                "J" => 1,
+                "q" => 2,
+                _ => 3,
+            },
+        ),
+        "k" | "K" | "f" => BOp::Spawn(
+            num(rest).filter(|b| (*b as usize) < max_body)? as usize,
+            match k {
+                "k" => 0,
+                "K" => 1,
+                _ => 2,
+            },
+        ),
+        "z" => {
+            let (a, b) = rest.split_once('.')?;
+            BOp::Write(num(a)? as usize, num(b).filter(|v| *v < 10)? as i64)
+        }
         "w" | "W" | "y" | "Y" => {
             let (a, b) = rest.split_once('.')?;
             let (a, b) = (
@@ -195,6 +233,14 @@ struct ShOwner {
     alive: bool,
     /// the effect task owning this scope has ended (its release is booked at the end of the op)
     gone: bool,
+    /// how often the scope has been released (a cancellable task belongs to one generation)
+    gen: u64,
+    /// live scoped-task futures that captured this scope's `Owner` (a strong reference)
+    pins: usize,
+    /// every other holder of the `Owner` is gone: the scope dies with its last pin
+    pending_drop: bool,
+    /// `ImmediateEffect::new_scoped` effects that die with this generation
+    imms: Vec<usize>,
 }
 
 #[derive(Default)]
@@ -290,14 +336,47 @@ struct World {
     status: BTreeMap<String, String>,
     memo_depth: usize,
     sh: Shadow,
-    /// effect tasks that ended during the current op: (effect, its scope's subtree at that moment, time)
-    ended: Vec<(usize, Vec<usize>, u64)>,
+    /// owners that lost a holder during the current op: (the effect whose task / closure ended — None for
+    /// a scoped task's future, the scope, its subtree at that moment, time, the scope was dropped with it)
+    ended: Vec<(Option<usize>, usize, Vec<usize>, u64, bool)>,
     fails: Vec<String>,
     tags: BTreeSet<&'static str>,
     baseline: usize,
     active: bool,
     eff_runs: Vec<u32>,
     memo_runs: Vec<u32>,
+    ekind: Vec<EKind>,
+    /// the effect's closure / the task's future has not been dropped
+    fn_alive: Vec<bool>,
+    task_info: Vec<Option<TaskInfo>>,
+    /// the observer of the body being run (None: untracked)
+    obs: Vec<Option<Obs>>,
+    /// `new_mut` functions on the call stack
+    mut_depth: usize,
+}
+
+#[derive(Clone, Copy, PartialEq, Debug)]
+enum EKind {
+    Other,
+    Imm,
+    ScopedImm,
+    MutImm,
+    Task,
+}
+
+#[derive(Clone, Copy, PartialEq, Debug)]
+enum Obs {
+    Eff(usize),
+    Memo,
+}
+
+#[derive(Clone, Copy, Debug)]
+struct TaskInfo {
+    scope: usize,
+    gen: u64,
+    /// spawned with cancellation while an owner was current
+    hooked: bool,
+    obs: Option<Obs>,
 }
 
 /// every constructor that re-runs a body under an owner of its own
@@ -308,6 +387,9 @@ enum AnyEff {
     Sync(Effect<SyncStorage>),
     Render(Option<RenderEffect<()>>),
     Async(AsyncDerived<i64>),
+    /// None: `new_scoped`, or the handle has been dropped
+    Imm(Option<ImmediateEffect>),
+    Task,
 }
 
 thread_local! {
@@ -334,17 +416,30 @@ impl Drop for Sentinel {
         let _ = W.try_with(|c| {
             if let Ok(mut w) = c.try_borrow_mut() {
                 if w.active {
+                    w.fn_alive[e] = false;
                     let o = w.sh.e_owner[e];
+                    let is_task = w.ekind[e] == EKind::Task;
+                    if is_task {
+                        w.sh.owners[o].pins -= 1;
+                        // a task ends when its future completes
+                        w.sh.exp_live.insert(H::E(e), false);
+                    }
+                    // the `Owner` is dropped when its last holder goes
+                    let dropped = w.sh.owners[o].pins == 0 && (!is_task || w.sh.owners[o].pending_drop);
                     // the scope as it is now: what is created under it later in the same op is not
                     // part of what the task's end releases
                     let mut post = vec![];
-                    if w.sh.owners[o].alive {
+                    if dropped && w.sh.owners[o].alive {
                         w.sh.subtree_postorder(o, &mut post);
                     }
                     w.sh.seq += 1;
                     let t = w.sh.seq;
-                    w.ended.push((e, post, t));
-                    w.sh.owners[o].gone = true;
+                    w.ended.push((if is_task { None } else { Some(e) }, o, post, t, dropped));
+                    if dropped {
+                        w.sh.owners[o].gone = true;
+                    } else if !is_task {
+                        w.sh.owners[o].pending_drop = true;
+                    }
                 }
             }
         });
@@ -385,6 +480,7 @@ impl World {
                 }
                 AnyEff::Render(r) => r.is_some(),
                 AnyEff::Async(a) => !a.is_disposed(),
+                AnyEff::Imm(_) | AnyEff::Task => self.fn_alive[k],
             },
         }
     }
@@ -534,8 +630,26 @@ impl World {
             }
             self.sh.owners[a].handles = keep;
         }
+        // --- `new_scoped` effects die with the generation that created them
+        for &a in &post {
+            let imms = std::mem::take(&mut self.sh.owners[a].imms);
+            let mut keep = vec![];
+            for e in imms {
+                if self.fn_alive[e] && e >= self.sh.op_handles0[3] {
+                    keep.push(e);
+                    continue;
+                }
+                if self.fn_alive[e] {
+                    self.fail("not-disposed", format!("scoped immediate effect {e} outlives the scope it was created in"));
+                }
+                self.sh.exp_live.insert(H::E(e), false);
+                self.sh.doomed[e] = true;
+            }
+            self.sh.owners[a].imms = keep;
+        }
         // --- the generation ends: children detached, contexts of the old generation are stale
         for &a in &post {
+            self.sh.owners[a].gen += 1;
             self.sh.owners[a].children.retain(|c| !post.contains(c));
             for ty in 0..3 {
                 if self.sh.owners[a].ctx_seq[ty] < t {
@@ -547,6 +661,16 @@ impl World {
         }
         if dead {
             self.sh.owners[root].alive = false;
+        }
+    }
+
+    /// the harness's handle to the scope's `Owner` is gone: the owner dies unless a scoped task pins it
+    fn sh_drop_holder(&mut self, so: usize) {
+        if self.sh.owners[so].pins > 0 {
+            self.tags.insert("pinned");
+            self.sh.owners[so].pending_drop = true;
+        } else {
+            self.sh_release(so, true);
         }
     }
 
@@ -604,13 +728,62 @@ fn run_effect_body(eid: usize, b: usize) -> i64 {
         let o = w.sh.e_owner[eid];
         w.sh_release(o, false);
         w.sh.cur.push(Some(o));
+        w.obs.push(Some(Obs::Eff(eid)));
+        if w.ekind[eid] == EKind::MutImm {
+            w.mut_depth += 1;
+        }
     });
     let sum = run_body(b);
     w(|w| {
         w.sh.cur.pop();
+        w.obs.pop();
+        if w.ekind[eid] == EKind::MutImm {
+            w.mut_depth -= 1;
+        }
     });
     ev(Ev::S(eid, sum));
     sum
+}
+
+/// one segment of a scoped task's future (polled under the captured owner and observer)
+fn run_task_seg(eid: usize, b: usize) {
+    w(|w| {
+        let info = w.task_info[eid].expect("task info");
+        let sc = &w.sh.owners[info.scope];
+        if info.hooked && (!sc.alive || sc.gone || sc.gen != info.gen) {
+            w.fail(
+                "zombie-task",
+                format!("task {eid}, spawned with cancellation, runs after the scope that spawned it was cleaned up"),
+            );
+        }
+        w.sh.cur.push(Some(info.scope));
+        w.obs.push(info.obs);
+    });
+    ev(Ev::R(eid));
+    let sum = run_body(b);
+    w(|w| {
+        w.sh.cur.pop();
+        w.obs.pop();
+    });
+    ev(Ev::S(eid, sum));
+}
+
+struct YieldOnce(bool);
+impl std::future::Future for YieldOnce {
+    type Output = ();
+    fn poll(mut self: std::pin::Pin<&mut Self>, cx: &mut std::task::Context<'_>) -> std::task::Poll<()> {
+        if self.0 {
+            std::task::Poll::Ready(())
+        } else {
+            self.0 = true;
+            cx.waker().wake_by_ref();
+            std::task::Poll::Pending
+        }
+    }
+}
+
+fn in_scoped_imm(w: &World) -> bool {
+    matches!(w.obs.last(), Some(Some(Obs::Eff(e))) if w.ekind[*e] == EKind::ScopedImm)
 }
 
 /// the handler of `Effect::watch`: ideally part of the effect's scope
@@ -619,6 +792,7 @@ fn run_handler(eid: usize, hb: usize) {
     w(|w| {
         let o = w.sh.e_owner[eid];
         w.sh.cur.push(Some(o));
+        w.obs.push(None);
         w.in_handler = Some(eid);
     });
     let body = w(|w| w.bodies[hb].clone());
@@ -630,6 +804,7 @@ fn run_handler(eid: usize, hb: usize) {
     }
     w(|w| {
         w.sh.cur.pop();
+        w.obs.pop();
         w.in_handler = None;
     });
 }
@@ -647,11 +822,13 @@ fn run_memo_body(mid: usize, b: usize) -> i64 {
         let o = w.sh.m_owner[mid];
         w.sh_release(o, false);
         w.sh.cur.push(Some(o));
+        w.obs.push(Some(Obs::Memo));
         w.memo_depth += 1;
     });
     let sum = run_body(b);
     w(|w| {
         w.sh.cur.pop();
+        w.obs.pop();
         w.memo_depth -= 1;
     });
     sum
@@ -883,6 +1060,134 @@ fn exec_bop(op: &BOp, sum: &mut i64) {
                 w.sh_new_handle(H::E(eid));
             });
         }
+        BOp::RenderIso(b) => {
+            let eid = w(|w| {
+                w.tags.insert("render-iso");
+                new_eff_slot(w)
+            });
+            let sentinel = Sentinel(eid);
+            let e = RenderEffect::new_isomorphic(move |_: Option<()>| {
+                let _keep = &sentinel;
+                run_effect_body(eid, b);
+            });
+            w(|w| {
+                w.effs[eid] = AnyEff::Render(Some(e));
+                w.sh.exp_live.insert(H::E(eid), true);
+            });
+        }
+        BOp::Imm(b, kind) => {
+            let eid = w(|w| {
+                w.tags.insert(match kind {
+                    1 => "imm-scoped",
+                    2 => "imm-mut",
+                    _ => "imm",
+                });
+                let eid = new_eff_slot(w);
+                w.ekind[eid] = match kind {
+                    1 => EKind::ScopedImm,
+                    2 => EKind::MutImm,
+                    _ => EKind::Imm,
+                };
+                w.effs[eid] = AnyEff::Imm(None);
+                // not an arena entry
+                w.sh.exp_live.insert(H::E(eid), true);
+                eid
+            });
+            let sentinel = Sentinel(eid);
+            let f = move || {
+                let _keep = &sentinel;
+                run_effect_body(eid, b);
+            };
+            match kind {
+                1 => {
+                    ImmediateEffect::new_scoped(f);
+                    w(|w| match w.sh.ambient() {
+                        Some(a) if Owner::current().is_some() => w.sh.owners[a].imms.push(eid),
+                        Some(_) => {
+                            w.owner_missing("a scoped immediate effect");
+                        }
+                        None => {
+                            // nothing owns the clean-up closure: the effect is dropped at once
+                            w.sh.exp_live.insert(H::E(eid), false);
+                            w.sh.doomed[eid] = true;
+                        }
+                    });
+                }
+                _ => {
+                    let e = match kind {
+                        0 => ImmediateEffect::new(f),
+                        2 => {
+                            let f = std::sync::Mutex::new(f);
+                            ImmediateEffect::new_mut(move || (f.lock().unwrap())())
+                        }
+                        _ => ImmediateEffect::new_isomorphic(f),
+                    };
+                    w(|w| w.effs[eid] = AnyEff::Imm(Some(e)));
+                }
+            }
+        }
+        BOp::Write(s, v) => {
+            if w(|w| w.memo_depth > 0 || w.mut_depth > 0) {
+                return;
+            }
+            if let Some(sig) = w(|w| w.sigs.get(s).copied()) {
+                if let Some(cur) = sig.try_get_untracked() {
+                    if cur < v {
+                        w(|w| {
+                            w.tags.insert("write");
+                        });
+                        let _ = sig.try_set(v);
+                    }
+                }
+            }
+        }
+        BOp::Spawn(b, kind) => {
+            if w(|w| w.memo_depth > 0 || in_scoped_imm(w)) {
+                return;
+            }
+            let eid = w(|w| {
+                w.tags.insert(if kind == 1 { "task-cancel" } else { "task" });
+                let lost = w.owner_missing("a scoped task");
+                let a = if lost { None } else { w.sh.ambient() };
+                let scope = match a {
+                    Some(a) => a,
+                    None => {
+                        // `Owner::current().unwrap_or_default()`: an owner of the task's own
+                        let so = w.sh.new_owner(None);
+                        w.sh.owners[so].pending_drop = true;
+                        so
+                    }
+                };
+                w.sh.owners[scope].pins += 1;
+                w.sh.e_owner.push(scope);
+                w.sh.doomed.push(false);
+                w.eff_runs.push(0);
+                w.effs.push(AnyEff::Task);
+                w.ekind.push(EKind::Task);
+                w.fn_alive.push(true);
+                w.task_info.push(Some(TaskInfo {
+                    scope,
+                    gen: w.sh.owners[scope].gen,
+                    hooked: kind == 1 && a.is_some(),
+                    obs: w.obs.last().copied().flatten(),
+                }));
+                let eid = w.effs.len() - 1;
+                w.sh.exp_live.insert(H::E(eid), true);
+                eid
+            });
+            let sentinel = Sentinel(eid);
+            let fut = async move {
+                let _keep = sentinel;
+                run_task_seg(eid, b);
+                YieldOnce(false).await;
+                run_task_seg(eid, b);
+            };
+            match kind {
+                0 => reactive_graph::spawn_local_scoped(fut),
+                1 => reactive_graph::spawn_local_scoped_with_cancellation(fut),
+                _ => any_spawner::Executor::spawn_local(ScopedFuture::new(fut)),
+            }
+        }
         BOp::Memo(b) => {
             let mid = w(|w| {
                 if w.sh.ambient().is_some() {
@@ -919,6 +1224,9 @@ fn new_eff_slot(w: &mut World) -> usize {
     w.sh.doomed.push(false);
     w.eff_runs.push(0);
     w.effs.push(AnyEff::Pending);
+    w.ekind.push(EKind::Other);
+    w.fn_alive.push(true);
+    w.task_info.push(None);
     w.effs.len() - 1
 }
 
@@ -987,10 +1295,12 @@ fn run_in(ins: &[usize], act: &Act) -> bool {
                         let so = w.sh.o_map[o];
                         w.sh_release(so, false);
                         w.sh.cur.push(Some(so));
+                        w.obs.push(None);
                     });
                     run_body(b);
                     w(|w| {
                         w.sh.cur.pop();
+                        w.obs.pop();
                     });
                 });
                 true
@@ -1091,7 +1401,7 @@ fn op_line(words: &[&str]) -> Option<bool> {
             w(|w| {
                 w.tags.insert("drop");
                 let so = w.sh.o_map[o];
-                w.sh_release(so, true);
+                w.sh_drop_holder(so);
             });
             Some(true)
         }
@@ -1113,6 +1423,12 @@ fn op_line(words: &[&str]) -> Option<bool> {
             if !ok {
                 return Some(false);
             }
+            // no handle to a scoped task or to a `new_scoped` effect
+            if let H::E(i) = h {
+                if w(|w| matches!(w.ekind[i], EKind::Task | EKind::ScopedImm)) {
+                    return Some(false);
+                }
+            }
             match h {
                 H::I(i) => w(|w| w.items[i]).dispose(),
                 H::S(i) => w(|w| w.sigs[i]).dispose(),
@@ -1123,6 +1439,7 @@ fn op_line(words: &[&str]) -> Option<bool> {
                         S(Effect<SyncStorage>),
                         R(Option<RenderEffect<()>>),
                         A(AsyncDerived<i64>),
+                        I(Option<ImmediateEffect>),
                         N,
                     }
                     let d = w(|w| match &mut w.effs[i] {
@@ -1130,7 +1447,8 @@ fn op_line(words: &[&str]) -> Option<bool> {
                         AnyEff::Sync(e) => D::S(*e),
                         AnyEff::Render(r) => D::R(r.take()),
                         AnyEff::Async(a) => D::A(*a),
-                        AnyEff::Pending => D::N,
+                        AnyEff::Imm(e) => D::I(e.take()),
+                        AnyEff::Pending | AnyEff::Task => D::N,
                     });
                     // the values are dropped / disposed outside the borrow of the world
                     match d {
@@ -1138,6 +1456,7 @@ fn op_line(words: &[&str]) -> Option<bool> {
                         D::S(e) => e.dispose(),
                         D::R(r) => drop(r),
                         D::A(a) => a.dispose(),
+                        D::I(e) => drop(e),
                         D::N => {}
                     }
                 }
@@ -1179,7 +1498,7 @@ fn op_line(words: &[&str]) -> Option<bool> {
                     drop(owner);
                     w(|w| {
                         let so = w.sh.o_map[o];
-                        w.sh_release(so, true);
+                        w.sh_drop_holder(so);
                     });
                 }
             }
@@ -1197,12 +1516,15 @@ fn finish_op(is_end: bool) -> String {
     w(|w| {
         // effect tasks that ended during this op: their owner was dropped
         let ended = std::mem::take(&mut w.ended);
-        for (e, post, t) in ended {
-            let o = w.sh.e_owner[e];
-            if !w.sh.doomed[e] {
-                w.fail("frame", format!("the task of live effect {e} ended"));
+        for (e, o, post, t, dropped) in ended {
+            if let Some(e) = e {
+                if !w.sh.doomed[e] {
+                    w.fail("frame", format!("the task of live effect {e} ended"));
+                }
             }
-            w.sh_release_at(o, true, Some((post, t)));
+            if dropped {
+                w.sh_release_at(o, true, Some((post, t)));
+            }
         }
         // every cleanup that ran belongs to a scope that was released
         let stray: Vec<usize> = w.sh.op_c.iter().filter(|c| !c.1).map(|c| c.0).collect();
@@ -1216,7 +1538,7 @@ fn finish_op(is_end: bool) -> String {
             let (name, st) = w.status_of(h);
             let is_live = st != "x";
             // a RenderEffect is not an arena entry
-            let in_arena = !matches!(h, H::E(k) if matches!(w.effs[k], AnyEff::Render(_)));
+            let in_arena = !matches!(h, H::E(k) if matches!(w.effs[k], AnyEff::Render(_) | AnyEff::Imm(_) | AnyEff::Task));
             if is_live && in_arena {
                 live += 1;
             }
@@ -1264,7 +1586,7 @@ fn finish_op(is_end: bool) -> String {
             let leaked: Vec<H> = w
                 .all_handles()
                 .into_iter()
-                .filter(|h| !matches!(h, H::E(k) if matches!(w.effs[*k], AnyEff::Render(_))))
+                .filter(|h| !matches!(h, H::E(k) if matches!(w.effs[*k], AnyEff::Render(_) | AnyEff::Imm(_) | AnyEff::Task)))
                 .filter(|h| w.live(*h) && !reach.contains(h))
                 .collect();
             if !leaked.is_empty() {
@@ -1362,15 +1684,18 @@ fn gen_body(rng: &mut Rng, k: usize, memo_like: bool) -> String {
                 0 | 1 => "o".to_string(),
                 2 if k > 0 => format!("e{}", rng.below(k)),
                 3 if k > 0 => format!("m{}", rng.below(k)),
-                4 if k > 0 => format!("v{}", rng.below(k)),
-                5 if k > 0 => format!("a{}", rng.below(k)),
+                4 if k > 0 => format!("{}{}", *rng.pick(&["v", "V", "j", "J"]), rng.below(k)),
+                5 if k > 0 => format!("{}{}", *rng.pick(&["a", "k", "K", "f"]), rng.below(k)),
                 _ => "o".to_string(),
             },
             3 => match rng.below(3) {
                 0 => format!("u{}", rng.below(3)),
                 _ => format!("r{}", rng.below(3)),
             },
-            _ => match rng.below(24) {
+            _ => match rng.below(30) {
+                24..=25 if k > 0 => format!("{}{}", *rng.pick(&["j", "J", "q", "Q", "V"]), rng.below(k)),
+                26..=27 if k > 0 => format!("{}{}", *rng.pick(&["k", "K", "K", "f"]), rng.below(k)),
+                28..=29 => format!("z{}.{}", rng.below(2), rng.range(1, 3)),
                 0..=1 => format!("r{}", rng.below(3)),
                 2..=5 => format!("c{}", rng.range(1, 40)),
                 6 => format!("n{}", rng.range(1, 40)),
@@ -1469,7 +1794,11 @@ fn gen_random_case(rng: &mut Rng, name: String, big: bool) -> Vec<String> {
             0..=24 => {
                 // creation under an owner (sometimes two nested `in`, sometimes none)
                 let last = nb - 1 - rng.below(nb.min(2));
-                let tok = match rng.below(24) {
+                let tok = match rng.below(32) {
+                    24..=26 => format!("{}{last}", *rng.pick(&["j", "J", "q", "Q"])),
+                    27 => format!("V{last}"),
+                    28..=30 => format!("{}{last}", *rng.pick(&["k", "K", "K", "f"])),
+                    31 => format!("z{}.{}", rng.below(2), rng.range(1, 3)),
                     0..=3 => format!("e{last}"),
                     4 => format!("m{}", rng.below(nb)),
                     15..=17 => format!("m{last}"),
@@ -1578,8 +1907,38 @@ fn gen_matrix() -> Vec<Vec<String>> {
         ("mix", "r0,i7,c5,o,s2"),
         ("nothing", "r0"),
     ];
-    let kinds = ["m", "e", "E", "I", "w", "W", "y", "Y", "v", "a", "wc"];
+    let kinds = ["m", "e", "E", "I", "w", "W", "y", "Y", "v", "a", "wc", "V", "j", "J", "q", "Q"];
     let mut out = vec![];
+    out.extend(gen_task_matrix());
+    // the recursive shape: the body writes one of its own dependencies after allocating
+    for kind in ["j", "J", "q", "Q", "e", "v", "V"] {
+        for (cname, cbody) in [
+            ("rec", "r0,i7,c5,o,z0.3,i8,c6"),
+            ("rec-child", "r0,e0,m0,z0.3,g0,i8"),
+            ("rec-twice", "r0,r1,c5,z0.2,i7,z1.2,c6"),
+        ] {
+            let mut l = vec![format!("case mx-{kind}-{cname}")];
+            l.push("body i4".into());
+            l.push("body r0".into());
+            l.push(format!("body {cbody}"));
+            l.push("x o".into());
+            l.push("in 0 x s1".into());
+            l.push("in 0 x s1".into());
+            l.push(format!("in 0 x {kind}2"));
+            l.push("idle".into());
+            for v in [2, 0, 1] {
+                l.push(format!("set 0 {v}"));
+                l.push("idle".into());
+                l.push(format!("set 1 {v}"));
+                l.push("idle".into());
+            }
+            l.push("cleanup 0".into());
+            l.push("set 0 0".into());
+            l.push("idle".into());
+            l.push("end".into());
+            out.push(l);
+        }
+    }
     for (cname, cbody) in classes {
         for kind in kinds {
             for tail in 0..2 {
@@ -1623,6 +1982,64 @@ fn gen_matrix() -> Vec<Vec<String>> {
                 }
                 l.push("end".into());
                 out.push(l);
+            }
+        }
+    }
+    out
+}
+
+/// scoped tasks: who spawns x which spawn function x when the spawning scope is released relative to
+/// the task's polls (before the first, between the two, after completion) x how it is released
+fn gen_task_matrix() -> Vec<Vec<String>> {
+    let mut out = vec![];
+    for spawn in ["k", "K", "f"] {
+        for (hname, host) in [("owner", ""), ("effect", "e"), ("render", "v"), ("imm", "j"), ("wc", "wc")] {
+            for when in ["before", "between", "after"] {
+                for how in ["cleanup", "rerun", "drop"] {
+                    if host.is_empty() && how == "rerun" {
+                        continue;
+                    }
+                    let mut l = vec![format!("case tk-{spawn}-{hname}-{when}-{how}")];
+                    l.push("body r0,i4,c9,u0".into()); // b0: the task's body
+                    l.push(format!("body r0,p0.5,c8,{spawn}0")); // b1: the host's body
+                    l.push("x o".into());
+                    l.push("in 0 x s1".into());
+                    l.push("child 0".into());
+                    // after this the task is spawned and nothing else is ready
+                    match host {
+                        "" => l.push(format!("in 1 x {spawn}0")),
+                        "wc" => l.push("wc 1 1".into()),
+                        "e" => {
+                            l.push("in 1 x e1".into());
+                            l.push("poll 0".into());
+                        }
+                        _ => l.push(format!("in 1 x {host}1")),
+                    }
+                    let release: Vec<String> = match (how, host) {
+                        ("cleanup", _) => vec!["cleanup 1".into()],
+                        ("drop", _) => vec!["drop 1".into()],
+                        (_, "wc") => vec!["wc 1 1".into()],
+                        (_, "j") => vec!["set 0 2".into()],
+                        // the host's task comes first in the ready list
+                        _ => vec!["set 0 2".into(), "poll 0".into()],
+                    };
+                    match when {
+                        "before" => l.extend(release),
+                        "between" => {
+                            l.push("poll 9".into()); // the last ready task: the one just spawned
+                            l.extend(release);
+                        }
+                        _ => {
+                            l.push("idle".into());
+                            l.extend(release);
+                        }
+                    }
+                    l.push("idle".into());
+                    l.push("cleanup 0".into());
+                    l.push("idle".into());
+                    l.push("end".into());
+                    out.push(l);
+                }
             }
         }
     }
